@@ -25,10 +25,15 @@ class InjectedInterrupt(KeyboardInterrupt):
 
 
 class Injector:
-    def __init__(self, target=None, mode="count", errno_=errno.ENOSPC):
+    def __init__(self, target=None, mode="count", errno_=errno.ENOSPC, second=None):
         self.target = target  # index of the effect point to hit, or None
         self.mode = mode  # "count" | "exc" | "kbd" | "die"
         self.errno = errno_
+        # second = (j, mode2): after the first fault fired, the j-th effect point that follows (the recovery path) is
+        # hit as well; second = "count" only records the labels of those points in tail_labels
+        self.second = second
+        self.tail_labels = []
+        self.second_fired = None
         self.labels = []
         self.fired = None
         self._saved = []
@@ -37,6 +42,17 @@ class Injector:
     def point(self, label):
         idx = len(self.labels)
         self.labels.append(label)
+        if self.fired is not None and self.second is not None:
+            j = len(self.tail_labels)
+            self.tail_labels.append(label)
+            if self.second != "count" and self.second_fired is None and j == self.second[0]:
+                self.second_fired = label
+                if self.second[1] == "die":
+                    os._exit(9)
+                if self.second[1] == "kbd":
+                    raise InjectedInterrupt(f"second injected interrupt at {label}")
+                raise Injected(errno.EIO, f"second injected fault at {label}")
+            return
         if self.target is not None and idx == self.target and self.fired is None:
             self.fired = label
             if self.mode == "die":
@@ -72,6 +88,26 @@ class Injector:
                 inj.point("os.rmdir")
                 return os.rmdir(p, *args, **kw)
 
+            @staticmethod
+            def rename(a, b, *args, **kw):
+                inj.point("os.rename")
+                return os.rename(a, b, *args, **kw)
+
+            @staticmethod
+            def unlink(p, *args, **kw):
+                inj.point("os.unlink")
+                return os.unlink(p, *args, **kw)
+
+            @staticmethod
+            def link(a, b, *args, **kw):
+                inj.point("os.link")
+                return os.link(a, b, *args, **kw)
+
+            @staticmethod
+            def truncate(p, n):
+                inj.point("os.truncate")
+                return os.truncate(p, n)
+
         return OsProxy()
 
     def _shutil_proxy(self):
@@ -85,6 +121,51 @@ class Injector:
             def copymode(a, b, *args, **kw):
                 inj.point("shutil.copymode")
                 return shutil.copymode(a, b, *args, **kw)
+
+            # a copy ONTO a path is not atomic: it truncates the target and then fills it.  The proxies perform the copy
+            # in those steps with an effect point after each, so that a crash / fault in the middle is enumerated too.
+            @staticmethod
+            def _stepwise(src, dst, label):
+                inj.point(label)
+                if os.path.isdir(dst):
+                    dst = os.path.join(dst, os.path.basename(src))
+                with builtins.open(src, "rb") as f:
+                    data = f.read()
+                with builtins.open(dst, "wb") as f:
+                    f.flush()
+                    inj.point(label + ".truncated")
+                    f.write(data[: len(data) // 2])
+                    f.flush()
+                    inj.point(label + ".mid")
+                    f.write(data[len(data) // 2:])
+                return dst
+
+            @staticmethod
+            def copyfile(src, dst, *args, **kw):
+                return ShutilProxy._stepwise(src, dst, "shutil.copyfile")
+
+            @staticmethod
+            def copy(src, dst, *args, **kw):
+                d = ShutilProxy._stepwise(src, dst, "shutil.copy")
+                shutil.copymode(src, d)
+                return d
+
+            @staticmethod
+            def copy2(src, dst, *args, **kw):
+                d = ShutilProxy._stepwise(src, dst, "shutil.copy2")
+                shutil.copystat(src, d)
+                return d
+
+            @staticmethod
+            def move(src, dst, *args, **kw):
+                inj.point("shutil.move")
+                try:
+                    os.rename(src, dst)
+                    return dst
+                except OSError:
+                    d = ShutilProxy._stepwise(src, dst, "shutil.move.copy")
+                    os.unlink(src)
+                    return d
 
         return ShutilProxy()
 
